@@ -281,6 +281,14 @@ def r12_2(prog: Program, rep: Report):
 ANNOT_PARAMS = {"t", "obj", "annotation", "tvar", "hint", "tp"}
 
 
+def _has_annotation(f, pname) -> bool:
+    a = f.node.args
+    for x in a.posonlyargs + a.args + a.kwonlyargs + ([a.vararg] if a.vararg else []) + ([a.kwarg] if a.kwarg else []):
+        if x.arg == pname:
+            return x.annotation is not None
+    return False
+
+
 def r12_3(prog: Program, rep: Report):
     memo = prog.memoised_functions()
     for q in sorted(memo):
@@ -303,7 +311,16 @@ def r12_3(prog: Program, rep: Report):
         anns = {p: c14._annotation_names(prog, f, p) for p in params}
         coarse_params = [p for p in params if anns[p] & set(oracle.COARSE_EQ)]
         annot_params = [p for p in params if p in ANNOT_PARAMS or anns[p] & {"builtins.type"}]
+        # a parameter without any annotation may carry values of any class, including the coarse ones
+        # (an annotation that names only exact-equality classes is the one thing that makes rendering safe)
+        typing_noise = {"typing.Union", "typing.Optional", "typing.Any", "typing.Hashable", "builtins.None", "typing.TypeVar"}
+        unannotated = [p for p in params if p not in ANNOT_PARAMS and not ((anns[p] - typing_noise) and (anns[p] - typing_noise) <= set(oracle.EXACT_EQ))]
         for p, r in P.returns(ps):
+            for up in unannotated + coarse_params:
+                x = ("param", up)
+                textual = (T.is_call_to(r, "builtins.str", "builtins.repr", "builtins.format") and r[2][:1] == (x,)) or (r[0] == "fstr" and T.contains(r, lambda s: s == x)) or (r[0] == "call" and r[1][0] == "attr" and r[1][1] == x and r[1][2] in ("__str__", "__repr__", "__format__"))
+                if textual:
+                    reasons.append(f"returns the text of {up} (values that compare equal can print differently: Decimal('1.10') == Decimal('1.1'), 0.0 == -0.0)")
             for cp in coarse_params:
                 x = ("param", cp)
                 if T.contains(r, lambda s: s[0] == "call" and s[1][0] == "attr" and s[1][1] == x and s[1][2] in ("isoformat", "utcoffset", "tzname", "__str__", "__repr__", "strftime")) or T.contains(r, lambda s: T.is_call_to(s, "builtins.str", "builtins.repr") and s[2] == (x,)) or T.contains(r, lambda s: s == ("attr", x, "tzinfo")):
